@@ -818,4 +818,218 @@ theorem getRcInterval_spec (stoich : List Int) (c0 : List α) (lo up : α)
         obtain ⟨j', hj', he⟩ := (mem_limits _).mp hml
         exact ⟨j', hj', he ▸ hm0, by simp only; rw [he]⟩
 
+/-! ### round 3: interior of the bracket, strict monotonicity of the quotient, solid-free states -/
+
+/-- strictly inside the bracket every concentration is strictly positive (strictly positive `c0`) -/
+theorem rc_interval_interior_pos (stoich : List Int) (c0 : List α) (lo up : α)
+    (h : getRcInterval stoich c0 = .ok (lo, up)) (hpos : ∀ v ∈ c0, 0 < v)
+    (rc : α) (hlo : lo < rc) (hup : rc < up) (j : Nat) (hj : j < stoich.length) (hjc : j < c0.length) :
+    0 < c0[j] + ((stoich[j] : Int) : α) * rc := by
+  obtain ⟨hlen, hnz, _, _, _, hU, hL, _, _⟩ := getRcInterval_spec stoich c0 lo up h
+  have hc : 0 < c0[j] := hpos _ (List.getElem_mem _)
+  have hs : ((stoich[j] : Int) : α) ≠ 0 := by exact_mod_cast hnz j hj
+  rcases lt_or_gt_of_ne hs with hneg | hposs
+  · have hlim : c0[j] / ((stoich[j] : Int) : α) < 0 := div_neg_of_pos_of_neg hc hneg
+    have h2 : rc < -(c0[j] / ((stoich[j] : Int) : α)) := lt_of_lt_of_le hup (hU j hj hlim)
+    have h3 := mul_lt_mul_of_neg_left h2 hneg
+    have h4 : ((stoich[j] : Int) : α) * -(c0[j] / ((stoich[j] : Int) : α)) = -c0[j] := by field_simp
+    linarith
+  · have hlim : 0 < c0[j] / ((stoich[j] : Int) : α) := div_pos hc hposs
+    have h2 : -(c0[j] / ((stoich[j] : Int) : α)) < rc := lt_of_le_of_lt (hL j hj hlim) hlo
+    have h3 := mul_lt_mul_of_pos_left h2 hposs
+    have h4 : ((stoich[j] : Int) : α) * -(c0[j] / ((stoich[j] : Int) : α)) = -c0[j] := by field_simp
+    linarith
+
+theorem extentState_pos_of_interior (stoich : List Int) (c0 : List α) (lo up : α)
+    (h : getRcInterval stoich c0 = .ok (lo, up)) (hpos : ∀ v ∈ c0, 0 < v)
+    (rc : α) (hlo : lo < rc) (hup : rc < up) : ∀ v ∈ extentState c0 stoich rc, 0 < v := by
+  intro v hv
+  obtain ⟨j, hj, rfl⟩ := List.getElem_of_mem hv
+  simp only [extentState, List.length_zipWith] at hj
+  simp only [extentState, List.getElem_zipWith]
+  exact rc_interval_interior_pos stoich c0 lo up h hpos rc hlo hup j (by omega) (by omega)
+
+/-- one factor `(c + ν·rc)^ν` is strictly increasing in `rc` while the concentration stays positive (`ν ≠ 0`) -/
+theorem factor_strictMono (c : α) (n : Int) (hn : n ≠ 0) (r1 r2 : α) (h12 : r1 < r2)
+    (h1 : 0 < c + ((n : Int) : α) * r1) (h2 : 0 < c + ((n : Int) : α) * r2) :
+    (c + ((n : Int) : α) * r1) ^ n < (c + ((n : Int) : α) * r2) ^ n := by
+  rcases lt_or_gt_of_ne hn with hneg | hpos
+  · have hnα : ((n : Int) : α) < 0 := by exact_mod_cast hneg
+    have hlt : c + ((n : Int) : α) * r2 < c + ((n : Int) : α) * r1 := by
+      have := mul_lt_mul_of_neg_left h12 hnα
+      linarith
+    have hm : (0 : Int) < -n := by omega
+    have hp := zpow_lt_zpow_left₀ hm h2.le hlt
+    have e : ∀ a : α, a ^ n = (a ^ (-n))⁻¹ := by intro a; rw [zpow_neg, inv_inv]
+    rw [e, e, inv_lt_inv₀ (zpow_pos h1 _) (zpow_pos h2 _)]
+    exact hp
+  · have hnα : (0 : α) < ((n : Int) : α) := by exact_mod_cast hpos
+    have hlt : c + ((n : Int) : α) * r1 < c + ((n : Int) : α) * r2 := by
+      have := mul_lt_mul_of_pos_left h12 hnα
+      linarith
+    exact zpow_lt_zpow_left₀ hpos h1.le hlt
+
+theorem quotient_cons (x : α) (xs : List α) (n : Int) (ns : List Int) :
+    quotient (x :: xs) (n :: ns) = x ^ n * quotient xs ns := by
+  simp [quotient]
+
+/-- `Q(rc) = ∏ (c0ᵢ + νᵢ rc)^νᵢ` is positive and monotone — strictly for a non-empty reaction — along the reaction
+    coordinate, between two coordinates at which all concentrations are positive (all `νᵢ ≠ 0`) -/
+theorem quotient_extent_mono (r1 r2 : α) (h12 : r1 < r2) : ∀ (c0 : List α) (stoich : List Int),
+    c0.length = stoich.length → (∀ n ∈ stoich, n ≠ 0) →
+    (∀ v ∈ extentState c0 stoich r1, 0 < v) → (∀ v ∈ extentState c0 stoich r2, 0 < v) →
+    0 < quotient (extentState c0 stoich r1) stoich ∧
+    quotient (extentState c0 stoich r1) stoich ≤ quotient (extentState c0 stoich r2) stoich ∧
+    (stoich ≠ [] → quotient (extentState c0 stoich r1) stoich < quotient (extentState c0 stoich r2) stoich)
+  | [], [], _, _, _, _ => by simp [quotient, extentState]
+  | [], _ :: _, h, _, _, _ => by simp at h
+  | _ :: _, [], h, _, _, _ => by simp at h
+  | c :: cs, n :: ns, hl, hnz, hp1, hp2 => by
+    have hn : n ≠ 0 := hnz n (by simp)
+    have e1 : extentState (c :: cs) (n :: ns) r1 = (c + ((n : Int) : α) * r1) :: extentState cs ns r1 := by simp [extentState]
+    have e2 : extentState (c :: cs) (n :: ns) r2 = (c + ((n : Int) : α) * r2) :: extentState cs ns r2 := by simp [extentState]
+    rw [e1] at hp1 ⊢
+    rw [e2] at hp2 ⊢
+    have h1 : 0 < c + ((n : Int) : α) * r1 := hp1 _ (by simp)
+    have h2 : 0 < c + ((n : Int) : α) * r2 := hp2 _ (by simp)
+    obtain ⟨ipos, ile, _⟩ := quotient_extent_mono r1 r2 h12 cs ns (by simpa using hl)
+      (fun m hm => hnz m (List.mem_cons_of_mem _ hm)) (fun v hv => hp1 v (List.mem_cons_of_mem _ hv))
+      (fun v hv => hp2 v (List.mem_cons_of_mem _ hv))
+    have hf := factor_strictMono c n hn r1 r2 h12 h1 h2
+    rw [quotient_cons, quotient_cons]
+    have hlt : (c + ((n : Int) : α) * r1) ^ n * quotient (extentState cs ns r1) ns <
+        (c + ((n : Int) : α) * r2) ^ n * quotient (extentState cs ns r2) ns :=
+      mul_lt_mul hf ile ipos (zpow_pos h2 n).le
+    exact ⟨mul_pos (zpow_pos h1 n) ipos, hlt.le, fun _ => hlt⟩
+
+theorem equilibriumResidual_ok (rc : α) (c0 : List α) (stoich : List Int) (K v : α)
+    (h : equilibriumResidual rc c0 stoich K = .ok v) :
+    c0.length = stoich.length ∧ v = K - quotient (extentState c0 stoich rc) stoich := by
+  unfold equilibriumResidual at h
+  split_ifs at h with hl
+  simp only [bind, Except.bind] at h
+  split at h
+  · cases h
+  · rename_i q hq
+    simp only [pure, Except.pure, Except.ok.injEq] at h
+    exact ⟨not_not.mp hl, by rw [← h, eqQuotient_ok _ _ _ hq]⟩
+
+/-- the residual is defined (no ZeroDivisionError) wherever all concentrations along the coordinate are non-zero -/
+theorem eqQuotientGo_defined : ∀ (stoich : List Int) (concs : List α) (tot : α),
+    (∀ v ∈ concs, v ≠ 0) → ∃ q, eqQuotientGo tot stoich concs = .ok q
+  | [], _, tot, _ => ⟨tot, by simp [eqQuotientGo, pure, Except.pure]⟩
+  | _ :: _, [], tot, _ => ⟨tot, by simp [eqQuotientGo, pure, Except.pure]⟩
+  | n :: ss, c :: cs, tot, h => by
+    have hc : c ≠ 0 := h c (by simp)
+    have hp : ∃ p, pyPow c n = .ok p := by
+      unfold pyPow
+      by_cases hn : 0 ≤ n
+      · exact ⟨Num.npow c n.toNat, by simp [hn, pure, Except.pure]⟩
+      · exact ⟨((1 : Nat) : α) / Num.npow c n.natAbs, by simp [hn, hc, pure, Except.pure]⟩
+    obtain ⟨p, hp⟩ := hp
+    obtain ⟨q, hq⟩ := eqQuotientGo_defined ss cs (tot * p) (fun v hv => h v (List.mem_cons_of_mem _ hv))
+    exact ⟨q, by simp [eqQuotientGo, bind, Except.bind, hp, hq]⟩
+
+theorem equilibriumResidual_defined (rc : α) (c0 : List α) (stoich : List Int) (K : α)
+    (hl : c0.length = stoich.length) (hnz : ∀ v ∈ extentState c0 stoich rc, v ≠ 0) :
+    ∃ v, equilibriumResidual rc c0 stoich K = .ok v := by
+  obtain ⟨q, hq⟩ := eqQuotientGo_defined stoich (extentState c0 stoich rc) ((1 : Nat) : α) hnz
+  refine ⟨K - q, ?_⟩
+  unfold equilibriumResidual eqQuotient
+  rw [if_neg (by simpa using hl)]
+  simp only [bind, Except.bind, hq, pure, Except.pure]
+
+theorem zipWith_left_id {β γ : Type} : ∀ (c : List β) (n : List γ), c.length = n.length →
+    List.zipWith (fun a _ => a) c n = c
+  | [], [], _ => rfl
+  | [], _ :: _, h => by simp at h
+  | _ :: _, [], h => by simp at h
+  | a :: c, _ :: n, h => by simp [zipWith_left_id c n (by simpa using h)]
+
+/-- `dissolved` changes nothing when every solid of a phase-transfer reaction is already absent -/
+theorem dissolved_of_solids_zero (phases : List Nat) (x : List α) : ∀ (rxns : List Rxn) (d : List α),
+    dissolved phases rxns x = .ok d →
+    (∀ r ∈ rxns, hasPrecipitates phases r = .ok true → ∀ net s idx, precipitateStoich phases r = .ok (net, s, idx) →
+      pyIndex x idx = some 0) → d = x
+  | [], d, h, _ => by
+    simp only [dissolved, pure, Except.pure, Except.ok.injEq] at h
+    exact h.symm
+  | r :: rs, d, h, hz => by
+    simp only [dissolved, bind, Except.bind] at h
+    split at h
+    · cases h
+    · rename_i c1 h1
+      have hc1 : c1 = x := by
+        rcases dissolveStep_spec phases x c1 r h1 with ⟨_, rfl⟩ | ⟨hp, net, s, idx, cs, hps, hs, hcs, hl, rfl⟩
+        · rfl
+        · have h0 := hz r (by simp) hp net s idx hps
+          rw [hcs] at h0
+          have hcs0 : cs = 0 := Option.some.inj h0
+          subst hcs0
+          simp only [zero_div, zero_mul, sub_zero]
+          exact zipWith_left_id x _ (by rw [netStoich_length]; exact hl)
+      subst hc1
+      exact dissolved_of_solids_zero phases c1 rs d h (fun r' hr' => hz r' (List.mem_cons_of_mem _ hr'))
+
+/-- defaults in the source (`_result_is_sane(..., rtol=1e-9)`, `_fw_cond_factory(ri, rtol=1e-14)`): the model constants; the tie to
+    the source is the correspondence (`sane:default-*`, `fw:default-*` buckets) -/
+theorem default_rtols : (saneRtolDefault : ℚ) = 1 / 10 ^ 9 ∧ (fwRtolDefault : ℚ) = 1 / 10 ^ 14 := by
+  constructor <;> decide +kernel
+
+/-- `getRcInterval` returns (does not raise "0-interval") for strictly positive concentrations of a non-empty reaction -/
+theorem rcLimitsGo_defined : ∀ (stoich : List Int) (c0 : List α), stoich.length = c0.length → (∀ n ∈ stoich, n ≠ 0) →
+    ∃ l, rcLimitsGo stoich c0 = .ok l
+  | [], [], _, _ => ⟨[], by simp [rcLimitsGo, pure, Except.pure]⟩
+  | [], _ :: _, h, _ => by simp at h
+  | _ :: _, [], h, _ => by simp at h
+  | s :: ss, c :: cs, h, hnz => by
+    obtain ⟨l, hl⟩ := rcLimitsGo_defined ss cs (by simpa using h) (fun n hn => hnz n (List.mem_cons_of_mem _ hn))
+    exact ⟨c / ((s : Int) : α) :: l, by simp [rcLimitsGo, hnz s (by simp), hl, bind, Except.bind, pure, Except.pure]⟩
+
+theorem getRcInterval_defined (stoich : List Int) (c0 : List α) (hlen : stoich.length = c0.length)
+    (hne : stoich ≠ []) (hnz : ∀ n ∈ stoich, n ≠ 0) (hpos : ∀ v ∈ c0, 0 < v) :
+    ∃ lo up, getRcInterval stoich c0 = .ok (lo, up) := by
+  obtain ⟨limits, hlim⟩ := rcLimitsGo_defined stoich c0 hlen hnz
+  obtain ⟨hll, hlj⟩ := rcLimitsGo_spec stoich c0 limits hlen hlim
+  have h0s : 0 < stoich.length := List.length_pos_iff.mpr hne
+  have hl0 := (hlj 0 h0s (by omega) (by omega)).2
+  have hc0 : (0 : α) < c0[0]'(by omega) := hpos _ (List.getElem_mem _)
+  have hs0 : ((stoich[0] : Int) : α) ≠ 0 := by exact_mod_cast hnz _ (List.getElem_mem h0s)
+  have hmem : limits[0]'(by omega) ∈ limits := List.getElem_mem _
+  have hne0 : limits[0]'(by omega) ≠ 0 := by rw [hl0]; exact div_ne_zero hc0.ne' hs0
+  unfold getRcInterval rcLimits
+  simp only [hlen, ne_eq, not_true_eq_false, ↓reduceIte, hlim, bind, Except.bind, Nat.cast_zero]
+  generalize hneg : limits.filter (fun l => decide (l < 0)) = neg
+  generalize hposl : limits.filter (fun l => decide (0 < l)) = pos
+  have hnegmem : ∀ v, v ∈ neg ↔ v ∈ limits ∧ v < 0 := by intro v; rw [← hneg]; simp [List.mem_filter]
+  have hposmem : ∀ v, v ∈ pos ↔ v ∈ limits ∧ 0 < v := by intro v; rw [← hposl]; simp [List.mem_filter]
+  split_ifs with hz
+  · exfalso
+    rcases lt_or_gt_of_ne hne0 with hlt | hgt
+    · have hv := (hnegmem _).mpr ⟨hmem, hlt⟩
+      cases neg with
+      | nil => simp at hv
+      | cons a l =>
+        have hm : listMax a l ∈ a :: l := by
+          rcases listMax_mem a l with hm | hm
+          · rw [hm]; simp
+          · exact List.mem_cons_of_mem _ hm
+        have := ((hnegmem _).mp hm).2
+        have h2 := hz.2
+        simp only [neg_eq_zero] at h2
+        exact absurd h2 this.ne
+    · have hv := (hposmem _).mpr ⟨hmem, hgt⟩
+      cases pos with
+      | nil => simp at hv
+      | cons a l =>
+        have hm : listMin a l ∈ a :: l := by
+          rcases listMin_mem a l with hm | hm
+          · rw [hm]; simp
+          · exact List.mem_cons_of_mem _ hm
+        have := ((hposmem _).mp hm).2
+        have h1 := hz.1
+        simp only [neg_eq_zero] at h1
+        exact absurd h1 this.ne'
+  · exact ⟨_, _, rfl⟩
+
 end ChemModel.EqSolve
